@@ -157,6 +157,13 @@ fn cell(entry: usize, sig: i32, ctx: usize, e: &mut Emit) {
             probe_ids.push(unsafe { reg::register(*s, move || { HITS[k].fetch_add(1, Ordering::SeqCst); }) }.unwrap());
         }
     }
+    if ctx == 2 {
+        // the same number was registered through an unchecked entry point before (and removed
+        // again): the library may already have an entry / its handler installed for it
+        if let Ok(id) = unsafe { reg::register_unchecked(sig, |_| ()) } {
+            reg::unregister(id);
+        }
+    }
     let empty: [i32; 0] = [];
     let mut inst = Instances { a: SignalsInfo::<SignalOnly>::new(&empty).unwrap(), b: SignalsInfo::<WithRawSiginfo>::new(&empty).unwrap(), c: SignalsInfo::<WithOrigin>::new(&empty).unwrap() };
     let before = dispositions();
@@ -216,10 +223,12 @@ pub fn expected(entry: usize, sig: i32, os_ok: bool) -> &'static str {
     "ok"
 }
 
+const CTX: [&str; 3] = ["fresh", "after-two-registrations", "after an unchecked registration (and removal) of the same number"];
+
 pub fn run(tier: Tier) -> BResult {
     let sigs = sig_list();
     let verdict = os_verdicts(&sigs);
-    let contexts = if tier == Tier::Quick { vec![0usize] } else { vec![0usize, 1] };
+    let contexts = if tier == Tier::Quick { vec![0usize, 2] } else { vec![0usize, 1, 2] };
     let mut cells: Vec<(usize, i32, usize, bool)> = Vec::new();
     for &c in &contexts {
         for en in 0..ENTRY.len() {
@@ -240,7 +249,7 @@ pub fn run(tier: Tier) -> BResult {
     for (i, p) in probes.iter().enumerate() {
         let (en, s, c, os_ok) = cells[i];
         let want = expected(en, s, os_ok);
-        let case = json!({"entry": ENTRY[en], "signal": s, "context": if c == 0 { "fresh" } else { "after-two-registrations" }, "expected": want});
+        let case = json!({"entry": ENTRY[en], "signal": s, "context": CTX[c], "expected": want});
         let outcome = p.find("outcome=").unwrap_or("").to_string();
         let got_class = outcome.split('(').next().unwrap_or("").to_string();
         *classes.entry(format!("{}:{}", if en >= 10 { "iterator" } else if en == 2 || en == 3 { "unchecked" } else { "checked" }, if p.fate == Fate::Exited(0) { got_class.clone() } else { p.fate.describe() })).or_insert(0) += 1;
@@ -267,7 +276,7 @@ pub fn run(tier: Tier) -> BResult {
             }
         }
         if let Some(m) = bad {
-            violations.push(BViolation { message: format!("C14: {} with signal {} ({}): {}", ENTRY[en], s, if c == 0 { "fresh process" } else { "after two registrations" }, m), case });
+            violations.push(BViolation { message: format!("C14: {} with signal {} ({}): {}", ENTRY[en], s, ["fresh process", "after two registrations", "after an unchecked registration and removal of the same number"][c], m), case });
         }
     }
     BResult {
@@ -280,7 +289,7 @@ pub fn run(tier: Tier) -> BResult {
         violations,
         exhaustive: true,
         caps: vec![],
-        rule: "complete grid entry point (16) x signal number ([-2,130] + i32::MIN/MAX) x context; expected class per cell from a rule (forbidden+checked => catchable panic; OS verdict obtained by an independent sibling calling sigaction => Err; iterator front-ends panic for negative / >= 128; register_conditional_default Err for numbers without a name; else Ok); distinct = distinct (entry, outcome class, child fate, expected) tuples".into(),
+        rule: "complete grid entry point (16) x signal number ([-2,130] + i32::MIN/MAX) x context {fresh, after two other registrations, after an unchecked registration+removal of the same number}; expected class per cell from a rule (forbidden+checked => catchable panic; OS verdict obtained by an independent sibling calling sigaction => Err; iterator front-ends panic for negative / >= 128; register_conditional_default Err for numbers without a name; else Ok); distinct = distinct (entry, outcome class, child fate, expected) tuples".into(),
         assumptions: vec!["kernel/libc verdict on a signal number is taken from an independent sigaction call in a sibling process".into(), "x86-64 Linux".into()],
     }
 }
